@@ -42,7 +42,8 @@ PROPS_IOSIM = {
              'what a crashed writer leaves behind) or by the own binary .sol emitter; then truncation / byte damage / one hostile field '
              '(counts line, option count, objno line, "suffix kind n namelen tablen tablines" fields, binary record lengths); declared problem '
              'size equal / 0 / smaller / larger; consumer script reading all / some / none of each offered vector, SetError mid-vector, '
-             'non-zero OnAMPLOptions; read faults SHORT/EIO/ZERO/fopen errors. Oracle: terminates, no sanitizer report, documented return '
+             'a consumer that rejects a completely read vector in its own words, non-zero OnAMPLOptions; six consumer parties (C++ handler, the library\'s C wrapper around a recording '
+             'callback table, its default C callback table, its own easy handler, the C flavour of that on a solver object with a history); read faults SHORT/EIO/ZERO/fopen errors. Oracle: terminates, no sanitizer report, documented return '
              'code with message, never offered more than declared, suffix name/table lengths as stated in the file, no vector reported '
              'complete that the complete file contradicts (prefix rule on truncated files). Non-trivial = anything but a pristine full read',
         assumptions=_IO_ASSUME,
@@ -56,7 +57,8 @@ PROPS_IOSIM = {
              '70% of scenarios restricted to 3..9 plain options so that the option findings do not mask everything else; primal/dual vectors '
              'absent / partial / full with 17-digit values, subnormals, extremes, -0 and (12%) Inf/NaN; objno; solve code; int/real suffixes of '
              'all four kinds with tables) written by the real mp::WriteSolFile and read by the real mp::ReadSOLFile with a consume-everything '
-             'recording handler; fault-free. Oracle: statement tolerances (integral < 1e15 exact, finite within 1e-15 relative, non-finite '
+             'recording handler; in 25% a second reader party, the library\'s easy handler (C++ or C flavour) for a mixed-class model, must return message, code, values and variable '
+             'suffixes in the caller\'s order. Fault-free, except a separate 6% configuration with one interrupted / short / failing flush of the writer (reported, or the complete file). Oracle: statement tolerances (integral < 1e15 exact, finite within 1e-15 relative, non-finite '
              'identical or non-OK code, message line by line modulo the reserved empty line). Non-trivial = has vectors or suffixes',
         assumptions=_IO_ASSUME,
     ),
@@ -68,7 +70,7 @@ PROPS_IOSIM = {
         rule='scenario = explicit model IR (>= 1 variable; every NL operator incl. iterated ones, if/implication, piecewise-linear terms, '
              'function calls with string arguments, defined variables, complementarity, suffixes of 4 kinds int/real, initial primal/dual '
              'values; 60% with awkward doubles: subnormals, +-DBL_MAX, 17-digit values, +-0, +-Inf) fed through the real NLW2 writer in text '
-             'AND binary, x comments on/off x bounds first/last x column sizes none/cumulative/plain, read back with the real mp::ReadNLFile '
+             'AND binary, x comments on/off x bounds first/last x column sizes none/cumulative/plain x output precision 0 / 17..30, read back with the real mp::ReadNLFile '
              '(flags 0 / READ_BOUNDS_FIRST) and the recording checker. Oracle: per-item reader history == feed history computed from the IR '
              '(operators through an independent name<->number table), doubles bit-identical except the sign of zero; text history == binary '
              'history. Fault-free. Non-trivial = model has constraints or objectives',
